@@ -1,4 +1,5 @@
 import NriModel.Lemmas.ResultView
+import NriModel.Lemmas.ResultWalkRel
 /-!
 # C04 — each plugin sees the container exactly as the earlier plugins left it
 
@@ -11,14 +12,18 @@ shown. Proved for every original container, every chain and every position:
 the first plugin is shown the runtime's original (`C04_first_create`, `C04_first_update`);
 plugin *i* is shown the original overlaid with the adjustments of plugins 0 … i−1 in order
 (`C04_create`); in update requests the resources shown change only by applied updates of the
-container being updated (`C04_update_step`).
+container being updated (`C04_update_step`), and plugin *i* is shown exactly what the
+state-free specification walk (`Nri.UpdateWalk.walk`, the value the correspondence run's
+`specC04` evaluates) yields for the updated container over the plugins before it
+(`C04_update`; hypothesis: no ignore-failure update names one item twice, implied by the
+driver's guard).
 
 Not proved (partial): the last sentence of the property — that the view also equals the
 overlay of the *combined reply so far* on the original — is the reply/view simulation of C03;
 it is evaluated on every generated chain by the C03/C04 correspondence runs.
 -/
 namespace Nri.Props.C04
-open Nri Nri.NApi Nri.Result Nri.Ledger Nri.Overlay
+open Nri Nri.NApi Nri.Result Nri.Ledger Nri.Overlay Nri.UpdateWalk
 
 /-- the adjustment part of each chain element (`none` for an absent response or adjustment) -/
 def adjOf : Plugin × Option Response → Option Adjustment
@@ -115,6 +120,97 @@ theorem C04_update_step (st st1 : State) (p : Plugin) (u : Update) (r : Resource
       · have hid' : ¬ id = u.containerId := fun h => hid h.symm
         simp [hid, hid', hr1]
     · rw [hc] at hc'; cases hc'
+
+
+-- the chain of the examples below: an update request of c0 (requested pids 5), four plugins.
+-- 10-a sets the memory limit of c0; 20-b's ignore-failure update of c0 names the memory limit
+-- (taken) and cpu shares: dropped in its entirety; 30-c sets cpu quota of c0; 40-d sends nothing.
+private def updOf (id : Str) (r : Resources) (ign : Bool := false) : Update :=
+  { containerId := id, resources := some r, ignoreFailure := ign }
+
+private def chain4 : List (Plugin × Response) :=
+  [(str "10-a", { updates := [updOf (str "ctrA") { pids := some 1 }, updOf (str "c0") { memory := some { limit := some 3 } }] }),
+   (str "20-b", { updates := [updOf (str "c0") { memory := some { limit := some 8 }, cpu := some { shares := some 9 } } true] }),
+   (str "30-c", { updates := [updOf (str "c0") { cpu := some { quota := some 4 } }] }),
+   (str "40-d", { })]
+
+/-- **Every position, update requests.** The state in which the `i`-th plugin of an update
+    request of `id` is called shows, as the requested resources, what the specification walk
+    over the update lists of plugins `0 … i−1` yields for `id`, from the base `normRes req` for
+    `id` (and `normRes {}` for every other container): the requested resources overlaid, in
+    order, with exactly the earlier updates of `id` that were applied; an ignore-failure update
+    that hit a taken field contributes nothing. Structural equality of `Resources`. -/
+theorem C04_update (id : Cid) (req : Resources) (rs : List (Plugin × Response)) (i : Nat) (s : State)
+    (hnd : NoDupItems (flatUpdates (rs.take i)))
+    (h : (viewsAlong Quirks.fixed (initUpdate id req) (answeredAll rs))[i]? = some s) :
+    s.reqRes = (walk (specBase (.update id) req) (rs.take i)).get (specBase (.update id) req) id := by
+  have hrun := viewsAlong_run _ _ _ i s h
+  rw [answeredAll_take] at hrun
+  obtain ⟨rel, _⟩ := run_rel (baseOf (initUpdate id req)) (rs.take i) (initUpdate id req) s {}
+    (rel_fresh _ rfl rfl) (entOK_fresh _ rfl rfl) hnd hrun
+  rw [← walk_eq, baseOf_initUpdate] at rel
+  rw [rel.vals id]
+  have hk : s.kind = .update id := run_kind _ _ s _ hrun
+  unfold updBase
+  simp [hk, isOwn]
+
+-- 40-d, the fourth plugin, is shown limit 3 / quota 4 / pids 5 and no cpu shares: the walk over
+-- the first three plugins
+example :
+    (∀ u ∈ flatUpdates chain4, u.ignoreFailure = true → (setsUpd u).Nodup) ∧
+    ((viewsAlong Quirks.fixed (initUpdate (str "c0") { pids := some 5 }) (answeredAll chain4))[3]?.map fun s =>
+      (decide (s.reqRes = (walk (specBase (.update (str "c0")) { pids := some 5 }) (chain4.take 3)).get
+                 (specBase (.update (str "c0")) { pids := some 5 }) (str "c0")),
+       (s.reqRes.memory.getD {}).limit, (s.reqRes.cpu.getD {}).shares, (s.reqRes.cpu.getD {}).quota, s.reqRes.pids))
+    = some (true, some 3, none, some 4, some 5) := by decide
+
+/-- the same with the hypothesis stated once for the whole chain: every position -/
+theorem C04_update_request (id : Cid) (req : Resources) (rs : List (Plugin × Response))
+    (hnd : NoDupItems (flatUpdates rs)) (i : Nat) (s : State)
+    (h : (viewsAlong Quirks.fixed (initUpdate id req) (answeredAll rs))[i]? = some s) :
+    s.reqRes = (walk (specBase (.update id) req) (rs.take i)).get (specBase (.update id) req) id := by
+  apply C04_update id req rs i s _ h
+  intro u hu
+  apply hnd u
+  simp only [flatUpdates, List.mem_flatMap] at hu ⊢
+  obtain ⟨x, hx, hux⟩ := hu
+  exact ⟨x, List.mem_of_mem_take hx, hux⟩
+
+-- 30-c, the third plugin, is shown limit 3 and pids 5, neither the dropped limit 8 nor cpu shares
+example :
+    (∀ u ∈ flatUpdates chain4, u.ignoreFailure = true → (setsUpd u).Nodup) ∧
+    ((viewsAlong Quirks.fixed (initUpdate (str "c0") { pids := some 5 }) (answeredAll chain4))[2]?.map fun s =>
+      (decide (s.reqRes = (walk (specBase (.update (str "c0")) { pids := some 5 }) (chain4.take 2)).get
+                 (specBase (.update (str "c0")) { pids := some 5 }) (str "c0")),
+       (s.reqRes.memory.getD {}).limit, (s.reqRes.cpu.getD {}).shares, (s.reqRes.cpu.getD {}).quota, s.reqRes.pids))
+    = some (true, some 3, none, none, some 5) := by decide
+
+/-- **Every position, chains with unsubscribed or dropped plugins.** Position `i` of a chain in
+    which some plugins do not answer: the walk runs over the plugins before `i` that did. -/
+theorem C04_update_dropped (id : Cid) (req : Resources) (rs : List (Plugin × Option Response)) (i : Nat)
+    (s : State) (hnd : NoDupItems (flatUpdates (answered (rs.take i))))
+    (h : (viewsAlong Quirks.fixed (initUpdate id req) rs)[i]? = some s) :
+    s.reqRes = (walk (specBase (.update id) req) (answered (rs.take i))).get (specBase (.update id) req) id := by
+  have hrun := viewsAlong_run _ _ _ i s h
+  rw [run_answered] at hrun
+  obtain ⟨rel, _⟩ := run_rel (baseOf (initUpdate id req)) (answered (rs.take i)) (initUpdate id req) s {}
+    (rel_fresh _ rfl rfl) (entOK_fresh _ rfl rfl) hnd hrun
+  rw [← walk_eq, baseOf_initUpdate] at rel
+  rw [rel.vals id]
+  have hk : s.kind = .update id := run_kind _ _ s _ hrun
+  unfold updBase
+  simp [hk, isOwn]
+
+-- chain4 with an unsubscribed plugin after the first: position 4 is 40-d again
+example :
+    let rs : List (Plugin × Option Response) :=
+      (answeredAll (chain4.take 1)) ++ (str "15-x", none) :: answeredAll (chain4.drop 1)
+    (answered (rs.take 4)).map (fun x => (x.1, x.2.updates)) = (chain4.take 3).map (fun x => (x.1, x.2.updates)) ∧
+    ((viewsAlong Quirks.fixed (initUpdate (str "c0") { pids := some 5 }) rs)[4]?.map fun s =>
+      (decide (s.reqRes = (walk (specBase (.update (str "c0")) { pids := some 5 }) (answered (rs.take 4))).get
+                 (specBase (.update (str "c0")) { pids := some 5 }) (str "c0")),
+       (s.reqRes.memory.getD {}).limit, (s.reqRes.cpu.getD {}).shares, (s.reqRes.cpu.getD {}).quota, s.reqRes.pids))
+    = some (true, some 3, none, some 4, some 5) := by decide
 
 /-! ### the hypotheses are satisfiable -/
 
